@@ -1,5 +1,5 @@
 #!/bin/bash
-# usage: import_seed.sh <Cxx> <A|B>   copies a confirmed seeded change from its scratch worktree into /verif/seeded
+# usage: import_seed.sh <Cxx> <A..F>   copies a confirmed seeded change from its scratch worktree into /verif/seeded
 id=$1; x=$2; src=/tmp/wt/$id; dst=/verif/seeded/$id-$x
 grep -q "RESULT confirmed" $src/_seed/$x.confirm.log || { echo "$id-$x not confirmed"; exit 1; }
 mkdir -p $dst
